@@ -17,7 +17,7 @@ Requests (one per line), every answer is one line:
   (result pid (err Class))  Executor::notify_failure (Worker::notify_result Err arm) → STATE
   (pfinished)               the process body finished normally (result = Ok)  → STATE
   (finished pid (ok VAL)|(err Class))  a process on the same executor finished: awaiter loop of Executor::step → STATE
-  (wake)                    mark_active                                       → STATE
+  (wake)                    wake_selecting (end of update_await_results)                                      → STATE
   (select site now)         one execution of the Select instruction at `site` (the verdict of a pending
                             receive function is computed from its clauses)    → RES STATE
   (filterfail)              the pending receive function raises               → failed Class STATE | no-fail
@@ -257,7 +257,7 @@ def c05Step (s : St) (req : List Sx) : St × String :=
     match s.ex.getProc 0 with
     | some p => let s' := { s with ex := s.ex.setProc 0 { p with result := some (.ok (.t "Ok")) } }; (s', renderState s')
     | none => (s, "no-process")
-  | [.list [.atom "wake"]] => let s' := { s with ex := s.ex.markActive 0 }; (s', renderState s')
+  | [.list [.atom "wake"]] => let s' := { s with ex := s.ex.wake 0 }; (s', renderState s')
   | [.list [.atom "select", site, now]] =>
     match site.asNat, now.asNat with
     | some k, some t =>
